@@ -2,6 +2,7 @@ import Driver.Common
 import Driver.GlobalIndex
 import Driver.Epoch
 import Driver.Tree
+import Driver.RangeArith
 open Driver Aggkit
 
 def keccakStep (_ : Unit) (ws : List String) : Unit × String :=
@@ -17,5 +18,6 @@ def main (args : List String) : IO UInt32 := do
   | ["keccak"] => loop inp keccakStep (); return 0
   | ["globalindex"] => loop inp Driver.GlobalIndex.step (); return 0
   | ["epoch"] => loop inp Driver.Epoch.step {}; return 0
+  | ["rangearith"] => loop inp Driver.RangeArith.step (); return 0
   | ["tree"] => loop inp Driver.Tree.step (Aggkit.TM.init Driver.Tree.H Driver.Tree.N); return 0
   | _ => IO.eprintln "usage: aggkit_driver <scenario>"; return 2
